@@ -110,6 +110,65 @@ def chain_walk(tier, seed):
             "distinct_nontrivial": len(seen), "failures": fails, "samples": [{"suffix": "00", "rank": 0}, {"last_visited": cur}], "exhaustive": limit >= 135252}
 
 
+def recognition(tier, seed):
+    """'recognised by every component' end to end: ZIDs allocated by the real ZIDManager on every day of a leap year and a common
+    year (plus century boundaries) are accepted by dates.is_zid, lexed as one ZID token by both lexers, and read back as the
+    note's ZID when a page carrying them is compiled."""
+    import datetime as dt
+    import shutil
+    import tempfile
+    from pathlib import Path
+
+    import antlr4
+    from zorg.grammar.zorg_file.ZorgFileLexer import ZorgFileLexer
+    from zorg.grammar.zorg_query.ZorgQueryLexer import ZorgQueryLexer
+    from zorg.service.compiler import walk_zorg_page
+    from zorg.shared import dates as zdt
+    from zorg.storage.sql._zid_manager import ZIDManager
+
+    root = Path(tempfile.mkdtemp(prefix="zorgverif-c07r-"))
+    fails, n = [], 0
+    try:
+        days = [dt.date(2024, 1, 1) + dt.timedelta(days=i) for i in range(366)] + [dt.date(2023, 2, 28), dt.date(2023, 3, 1), dt.date(2000, 2, 29), dt.date(2099, 12, 31), dt.date(2100, 2, 28), dt.date(2028, 2, 29)]
+        if tier == "quick":
+            days = [d for i, d in enumerate(days) if d.day in (1, 28, 29, 30, 31) or i % 9 == 0]
+        man = ZIDManager(root)
+        zids = []
+        for d in days:
+            for _ in range(2):
+                zids.append((d, man.get_next(d)))
+        for d, z in zids:
+            n += 1
+            if not zdt.is_zid(z):
+                fails.append({"suffix": z, "index": n, "what": f"is_zid rejects the allocated ZID {z}"})
+                continue
+            for name, L in (("file", ZorgFileLexer), ("query", ZorgQueryLexer)):
+                toks = [t for t in L(antlr4.InputStream(z)).getAllTokens()]
+                if len(toks) != 1 or toks[0].type != L.ZID:
+                    fails.append({"suffix": z, "index": n, "what": f"{name} lexer reads {z} as token types {[t.type for t in toks]} (ZID is {L.ZID})"})
+        # one page per 40 ZIDs: every note's ZID is read back
+        for k in range(0, len(zids), 40):
+            chunk = zids[k:k + 40]
+            p = root / f"p{k}.zo"
+            p.write_text("# Recognition\n\n" + "".join((f"- {z} plain note\n" if i % 3 == 0 else f"o P1 {z} a todo\n" if i % 3 == 1 else f"- 240102 {z} with a modify date\n") for i, (d, z) in enumerate(chunk)) + "\n")
+            got = [nt.zid for nt in walk_zorg_page(root, Path(p.name)).notes]
+            want = [z for _, z in chunk]
+            if got != want:
+                bad = [(w, g) for w, g in zip(want, got + [None] * len(want)) if w != g][:3]
+                fails.append({"suffix": bad[0][0] if bad else "?", "index": k, "what": f"recompiled page reads ZIDs {bad} (written, read)"})
+    finally:
+        shutil.rmtree(root, ignore_errors=True)
+    return {"name": "recognition", "bound": f"{len(zids)} ZIDs allocated by the real ZIDManager on {len(days)} days (every day of a leap year in the thorough tier; month ends, 29 February, century boundaries) through is_zid, both lexers and recompilation",
+            "evaluations": n, "distinct_nontrivial": n, "failures": fails, "samples": [{"zid": zids[0][1]}], "replay_fn": "replay_recognition"}
+
+
+def replay_recognition(case):
+    from zorg.shared import dates as zdt
+
+    ok = zdt.is_zid(case["suffix"]) if isinstance(case.get("suffix"), str) else False
+    return ok, case.get("what", "")
+
+
 def replay_case(case):
     from zorg.storage.sql import _zid_manager as zm
     from contracts import c07
@@ -119,4 +178,4 @@ def replay_case(case):
 
 
 EXTRA = [lexer_lemmas]
-BOUNDED = [chain_walk]
+BOUNDED = [chain_walk, recognition]
